@@ -301,7 +301,7 @@ func runChild(scenario string, seed int64, tier string, from, stride, count int,
 		if procs < 1 {
 			procs = 1
 		}
-		cmd.Env = append(os.Environ(), "GOMAXPROCS="+strconv.Itoa(procs))
+		cmd.Env = append(os.Environ(), "GOMAXPROCS="+strconv.Itoa(procs), "VERIF_BURST=1")
 		var stderr bytes.Buffer
 		cmd.Stderr = &stderr
 		stdout, _ := cmd.StdoutPipe()
